@@ -5,8 +5,9 @@ from harness.core import cbool, clist, copt, cq, cz, czlist
 
 ID = "C03"
 MODEL_TARGETS = ["C03/Cases.vo"]
-PROOF_TARGETS = ["C03/Proofs.vo", "C03/Refuted.vo"]
-OBLIGATION_FILES = ["C03/Refuted.v"]
+PROOF_TARGETS = ["C11/Gen.vo", "C11/Bridge.vo", "C20/Gen.vo", "C20/Bridge.vo", "C03/Site.vo",
+                 "C03/Bridge.vo", "C03/Proofs.vo", "C03/Refuted.vo"]
+OBLIGATION_FILES = ["C03/Bridge.v", "C03/Refuted.v"]
 PROPS_FILE = "C03/Props.v"
 SHARD = 120
 PER_CASE_TIMEOUT = 180
@@ -32,6 +33,15 @@ TRUSTED = [
     "training series (the generator only produces those)",
 ]
 MODELLED = [
+    "REGENERATED on every run (fail closed) and proved equal to the model for all arguments in "
+    "coq/C03/Bridge.v: translator/sites_c03.py -> C03/Site.v (cutoff := y.index[-1] in _set_y_X and "
+    "_update_y_X, the non-empty guard and merge of _update_y_X, allow_empty flags, _set_cutoff / "
+    "cutoff property / the only stores to _cutoff, update = _update_y_X then refit on all data "
+    "with the horizon seen so far, predict = check_is_fitted; _set_fh; _predict(self.fh), and "
+    "EVERY pd.Series(..., index=) / <x>.index = / adapter .loc[] site in the 15 scope files, each "
+    "of which must be <fh>.to_absolute(self.cutoff)); translator/naive_c11.py -> C11/Gen.v "
+    "(horizon arithmetic, NaiveForecaster.fit / _predict_last_window, polynomial time axis); "
+    "translator/validate.py -> C20/Gen.v (_set_fh of the optional-horizon mixin)",
     "minimum claim, no deep embedding: the Coq model computes the prediction INDEX and the CUTOFF "
     "of any program (theorems about those for all programs), and VALUES only for the "
     "NaiveForecaster / PolynomialTrendForecaster leaves (C11 kernels, incl. updates with and "
@@ -50,6 +60,17 @@ NOT_RUNNABLE = [
 ]
 
 LEAVES = ["naive", "poly", "es", "theta", "ets", "reduce"]
+
+
+def translate(repo):
+    """Regenerated on every run: C03/Site.v (cutoff bookkeeping + every prediction-index site),
+    C11/Gen.v (horizon arithmetic, NaiveForecaster.fit / _predict_last_window, polynomial time axis)
+    and C20/Gen.v (_set_fh); all fail closed."""
+    from translator import naive_c11, sites_c03, validate
+    files = dict(naive_c11.translate(repo))
+    files.update(validate.translate(repo))
+    files.update(sites_c03.translate(repo))
+    return files
 
 
 # ------------------------------------------------------------------------------------------------
